@@ -138,6 +138,9 @@ DevExplainsRt(fid, e, broken) ==
          /\ e.fmt = "espec" /\ broken = {"E5"} /\ e.exact
     [] fid = "F08h" ->  \* patch archive: the serialiser recomputes the header flags and drops bit 0 (plain data)
          /\ e.fmt = "patch_archive" /\ broken = {"E4"} /\ HasF(e, "flags") /\ Small(e.h["flags"]) % 2 = 1
+    [] fid = "F08j" ->  \* archive index accepted with a footer hash shorter than the footer's own size field says
+         /\ e.fmt = "archive_index" /\ broken \subseteq {"E2", "E3", "E4"} /\ broken # {}
+         /\ HasF(e, "hash_bytes") /\ Small(e.h["hash_bytes"]) # 8
     [] OTHER -> FALSE
 
 RtOrder == <<"F08a", "F08b", "F08c", "F08d", "F08e", "F08f", "F08g", "F08h", "F08i", "F08j", "F08k", "F08l">>
